@@ -6,6 +6,7 @@ CONSTANTS
   CutArgs = {}
   Fmts = {}
   MaxHist = 1000
+  ExtNames <- MC_ExtNone
   AsFound_AliasWhenNoCutoff = FALSE
   AsFound_PopOnStore = FALSE
   AsFound_BaseCsvDropsT = FALSE
